@@ -155,6 +155,10 @@ def indexers(H=2, W=3):
     # negative-step row slice down to row 0 (as tile_image / multi-WCS use for bottom-up tiles)
     out.append(("negrow-to-0", (H, W), (H, W), slice(None), slice(None), slice(H - 1, None, -1), slice(None), sy, sx, [H - 1 - y for y in sy], sx))
     out.append(("negrow-inner", (H, W), (4, 3), slice(None), slice(None), slice(2, 0, -1), slice(None), sy, sx, [2 - y for y in sy], sx))
+    # rectangles that start at the origin and stop ONE pixel short of covering the buffer (column 3 of 4 / row 0 of
+    # a flipped row range is not addressed and must come out undefined whatever the buffer held before)
+    out.append(("one-short-col", (H, W), (H, W + 1), slice(None), slice(None), slice(None), slice(0, W), sy, sx, sy, sx))
+    out.append(("one-short-row-flipped", (H, W), (H + 1, W), slice(None), slice(None), slice(H, 0, -1), slice(None), sy, sx, [H - y for y in sy], sx))
     return out
 
 
@@ -386,7 +390,7 @@ def buffer_history_job(mode, depth=3):
 
 # --- Part B: persistence histories ----------------------------------------------------------
 
-OPS = ["write_A", "write_B", "write_partial", "write_undef", "write_inf", "read_none", "read_masked", "update_identity", "update_region", "update_clear", "stale_file"]
+OPS = ["write_A", "write_B", "write_partial", "write_undef", "write_undef_as_rgb", "write_inf", "read_none", "read_masked", "update_identity", "update_region", "update_clear", "stale_file"]
 
 
 def tile_arrays(mode):
@@ -516,6 +520,13 @@ def persistence_job(job):
             elif not same(g, ref):
                 bad("readback-differs", "default='masked' read differs from the stored tile", hist)
             newref = ref
+        elif op == "write_undef_as_rgb":
+            # the write_image(mode=...) option: an entirely transparent tile asked to be saved as RGB is still an
+            # entirely undefined tile
+            if mode != "RGBA" or fmt != "png":
+                return ref, False
+            pio.write_image(pos, Image.from_array(undef.copy()), mode=ImageMode.RGB, **fk)
+            newref = None
         elif op == "update_clear":
             # an update whose body leaves the tile entirely undefined: nothing is stored and an earlier file goes
             if mode == "RGB" and ref is not None and ref.shape[-1] == 3:
@@ -696,7 +707,7 @@ def run(tier, seed):
     rep.rule = (
         "A: mode x indexer kind x all 2^6 source x 2^6 destination defined/undefined patterns (fill, update, clear, is_completely_masked); every sequence of up to %d "
         "operations {clear, fill defined/undefined, update partly defined/undefined} on ONE buffer object with is_completely_masked and write_image judged after each step. "
-        "B: breadth-first search over operation histories (11-op alphabet) to depth %d on a PyramidIO directory per (mode, format, scheme), "
+        "B: breadth-first search over operation histories (12-op alphabet) to depth %d on a PyramidIO directory per (mode, format, scheme), "
         "states = distinct reference tile states, deduplicated; transitions = (state, op) steps executed on the real directory"
     ) % (maxdepth, maxdepth)
     rep.assumptions = [
